@@ -166,7 +166,9 @@ CLAIMED = {
             "double->ns conversion is IEEE in both code and executable model and opaque in proofs.",
             "Lean 4 proof over executable model + differential correspondence with the compiled daemon", "DESIGN.md §6 C14, docs/C14-proofs.md"),
     "C19": ("proof",
-            "zlib is an ORACLE (not modelled): 19 Lean theorems over the bookkeeping of compression.c and the offer parser of websocket.c: "
+            "zlib is an ORACLE (not modelled): 23 Lean theorems over the bookkeeping of compression.c, the frame dispatch in front of it and the offer parser of websocket.c: "
+            "roundtrip_interleaved_given_zlib / roundtrip_session_interleaved_given_zlib (every cut of the compressed body with ping/pong frames "
+            "between the fragments), dispatch_memory_safe, "
             "reassemble_in_bounds (all fragment size sequences), reassemble_in_bounds_iff + counterexample for the original, frames_memory_safe, "
             "tail_roundtrip, outloop_bookkeeping, response_len_le_buffer (any header value), response_params_legal, offer_parse_reads_in_bounds, "
             "compress_never_truncates and compress_no_oob_for_any_zlib_output (no hypothesis on zlib: for every output length the sender sends a "
